@@ -16,8 +16,9 @@ from harness import simdrive
 
 
 class Conversation:
-    def __init__(self, args=(), flag_opts=None, cap=1 << 20, origins=None, default_origin='accept', hook_log=None):
-        self.sim = simdrive.Sim(args=args, flag_opts=flag_opts, cap=cap, origins=origins, default_origin=default_origin)
+    def __init__(self, args=(), flag_opts=None, cap=1 << 20, origins=None, default_origin='accept', hook_log=None, threaded=False):
+        klass = simdrive.ThreadedSim if threaded else simdrive.Sim
+        self.sim = klass(args=args, flag_opts=flag_opts, cap=cap, origins=origins, default_origin=default_origin)
         self.clients = []
         self.hook_log = hook_log
 
